@@ -14,11 +14,18 @@ pub struct BarSetup {
     /// additional manual ticks before the captured one
     pub extra_ticks: u32,
     pub finish: bool,
+    /// the bar's tab width (None: the default 8)
+    pub tab_width: Option<usize>,
+    /// after the style was installed: take it back with ProgressBar::style(), give it this template
+    /// through the `template()` setter and install it again
+    pub retemplate: Option<String>,
+    /// draw once, then change the tab width to this, then draw the captured frame
+    pub retab: Option<usize>,
 }
 
 impl Default for BarSetup {
     fn default() -> Self {
-        BarSetup { len: Some(42), pos: 7, msg: "Msg".into(), prefix: "Pre".into(), cols: 300, rows: 200, extra_ticks: 0, finish: false }
+        BarSetup { len: Some(42), pos: 7, msg: "Msg".into(), prefix: "Pre".into(), cols: 300, rows: 200, extra_ticks: 0, finish: false, tab_width: None, retemplate: None, retab: None }
     }
 }
 
@@ -36,9 +43,20 @@ pub fn render(style: ProgressStyle, s: &BarSetup) -> Result<Vec<String>, RenderE
             .with_position(s.pos)
             .with_message(s.msg.clone())
             .with_prefix(s.prefix.clone());
+        if let Some(w) = s.tab_width {
+            pb.set_tab_width(w);
+        }
         pb.set_style(style);
+        if let Some(t) = &s.retemplate {
+            let again = pb.style().template(t).expect("the template was accepted by with_template");
+            pb.set_style(again);
+        }
         for _ in 0..s.extra_ticks {
             pb.tick();
+        }
+        if let Some(w) = s.retab {
+            pb.tick();
+            pb.set_tab_width(w);
         }
         if s.finish {
             pb.abandon(); // finished, position unchanged, forced draw
